@@ -8,7 +8,8 @@ open BbRe.Sched
 
 /-- replace one existing operation by a version with the same name and task -/
 theorem TStep.of_op {allow : Prop} {s s' : State} {k0 : Nat} {o0 o2 : Op} (h0 : s.op? k0 = some o0)
-    (hn : o2.name = o0.name) (ht : o2.task = o0.task) (h1 : s'.tasks = s.tasks)
+    (hn : o2.name = o0.name) (ht : o2.task = o0.task)
+    (hm : o2.mayExistWithoutWaiters = true → o0.mayExistWithoutWaiters = true) (h1 : s'.tasks = s.tasks)
     (h2 : s'.ops = aset o0.name o2 s.ops) (h3 : s'.nextTask = s.nextTask) (h4 : s'.nextOp = s.nextOp) :
     TStep allow s s' := by
   intro hk
@@ -17,15 +18,15 @@ theorem TStep.of_op {allow : Prop} {s s' : State} {k0 : Nat} {o0 o2 : Op} (h0 : 
   intro k o' e
   simp only [State.op?, h2, alookup_aset, hname] at e
   split at e
-  · rename_i hkk; subst hkk; injection e with e; subst e; exact ⟨o0, h0, ht, hn⟩
-  · exact ⟨o', e, rfl, rfl⟩
+  · rename_i hkk; subst hkk; injection e with e; subst e; exact ⟨o0, h0, ht, hn, hm⟩
+  · exact ⟨o', e, rfl, rfl, id⟩
 
 theorem streamSend_tstep {allow : Prop} {s s' : State} {c o : Nat} (hh : streamSend s c o = .ok s') :
     TStep allow s s' := by
   obtain ⟨op, t, h0, _, ⟨r, _, _, rfl⟩ | ⟨_, rfl⟩⟩ := streamSend_ok hh
   · intro hk
     have hname := (hk.oname o op h0).1
-    exact TStep.of_op (o2 := { op with waiters := op.waiters - 1 }) h0 rfl rfl (by simp) (by simp [sendDone, hname]) (by simp) (by simp) hk
+    exact TStep.of_op (o2 := { op with waiters := op.waiters - 1 }) h0 rfl rfl id (by simp) (by simp [sendDone, hname]) (by simp) (by simp) hk
   · exact TStep.of_same rfl rfl rfl rfl
 
 theorem streamAttach_tstep {allow : Prop} {s s' : State} {c o : Nat} (hh : streamAttach s c o = .ok s') :
@@ -34,14 +35,14 @@ theorem streamAttach_tstep {allow : Prop} {s s' : State} {c o : Nat} (hh : strea
   refine TStep.trans (b := attachS s o op) ?_ (streamSend_tstep h1)
   intro hk
   have hname := (hk.oname o op h0).1
-  exact TStep.of_op (o2 := { op with waiters := op.waiters + 1 }) h0 rfl rfl rfl (by simp [attachS, hname]) rfl rfl hk
+  exact TStep.of_op (o2 := { op with waiters := op.waiters + 1 }) h0 rfl rfl id rfl (by simp [attachS, hname]) rfl rfl hk
 
 theorem streamLeave_tstep {allow : Prop} {s s' : State} {c code : Nat} (hh : streamLeave s c code = .ok s') :
     TStep allow s s' := by
   obtain ⟨st, op, _, h0, _, rfl⟩ := streamLeave_ok hh
   intro hk
   have hname := (hk.oname st.op op h0).1
-  exact TStep.of_op (o2 := { op with waiters := op.waiters - 1 }) h0 rfl rfl (by simp) (by simp [leaveS, hname]) (by simp) (by simp) hk
+  exact TStep.of_op (o2 := { op with waiters := op.waiters - 1 }) h0 rfl rfl id (by simp) (by simp [leaveS, hname]) (by simp) (by simp) hk
 
 theorem streamWake_tstep {allow : Prop} {h : Hints} {s s' : State} {now c reason : Nat}
     (hh : streamWake h s now c reason = .ok s') : TStep allow s s' := by
@@ -60,14 +61,14 @@ theorem addOpS_tstep (allow : Prop) {s : State} {tid : Nat} {t : Task} (inv : Li
     simp only [State.task?, addOpS_tasks, alookup_aset] at e
     split at e
     · rename_i hkk; injection e with e; subst e
-      refine .inl ⟨t, by rw [← hkk, hid.1]; exact h0, ⟨rfl, Nat.le_refl _, rfl, rfl, rfl, fun _ h => h, by simp, by simp [Task.stage]⟩⟩
+      refine .inl ⟨t, by rw [← hkk, hid.1]; exact h0, ⟨rfl, Nat.le_refl _, rfl, rfl, rfl, fun _ h => h, by simp, by simp [Task.stage], rfl⟩⟩
     · exact .inl ⟨t', e, TaskLe.refl _ _⟩
   · intro k o' e
     simp only [State.op?, addOpS_ops, alookup_aset] at e
     split at e
     · rename_i hkk; injection e with e; subst e
-      exact .inr ⟨by omega, by simp; omega, hkk, by simp; exact hid.2⟩
-    · exact .inl ⟨o', e, rfl, rfl⟩
+      exact .inr ⟨by omega, by simp; omega, hkk, by simp; exact hid.2, by simp⟩
+    · exact .inl ⟨o', e, rfl, rfl, id⟩
 
 theorem execArrive_tstep {allow : Prop} {h : Hints} {s s' : State} {now c digest dkey : Nat} {dnc : Bool}
     {comps : List Nat} {platform : Nat} {inv : List Nat} {prio : Int}
@@ -127,7 +128,7 @@ theorem assignNext_tstep {allow : Prop} {h : Hints} {s s1 : State} {w : Worker} 
     refine TStep.of_task' (k0 := t0.id) (t0 := t0)
       (t2 := bumpGen { t0 with worker := some (w.scq, w.id), retry := 0, queued := false })
       (by rw [hid]; exact hl)
-      ⟨rfl, by simp [bumpGen], rfl, rfl, rfl, fun _ h => h, by intro _; simp [bumpGen], ?_⟩ ?_ ?_ rfl rfl rfl hk
+      ⟨rfl, by simp [bumpGen], rfl, rfl, rfl, fun _ h => h, by intro _; simp [bumpGen], ?_, rfl⟩ ?_ ?_ rfl rfl rfl hk
     · rintro (h | h)
       · simp [bumpGen, Task.stage, hresp] at h; split at h <;> omega
       · simp [bumpGen] at h
@@ -173,7 +174,7 @@ theorem getCurrentOrNext_tstep {allow : Prop} {h : Hints} {s s' : State} {q : Sc
       intro hk
       have hid := (hk.tid tid t h0).1
       exact TStep.of_task (t0 := t) (t2 := { t with retry := t.retry + 1 }) (by rw [hid]; exact h0)
-        ⟨rfl, Nat.le_refl _, rfl, rfl, rfl, fun _ h => h, by simp, by simp [Task.stage]⟩
+        ⟨rfl, Nat.le_refl _, rfl, rfl, rfl, fun _ h => h, by simp, by simp [Task.stage], rfl⟩
         (by simp) (by simp) (by simp) (by simp) hk
     · obtain ⟨_, s1, h3, h4⟩ := h2
       exact (complete_tstep_false h3).trans (getNextTask_tstep h4)
